@@ -30,6 +30,7 @@ EXPLANATION = (
     ' (16) every screen-order use of ListBox\'s bottom-up fill_above reverses it first; (17) a computed cursor column rejected on one side of the widget is rejected on the other side too.'
     ' Round 7: (18) FRESHLIST: no in-place edit of a shard list shared with a (cached) child canvas - a child that silently gains padding rows is drawn at another height than rows() / get_cursor_coords work with; (19) HIDDEN-DEP: a rendering that skips a child declares the dependency on every child (shared with C06.8).'
     " Round 8: (20) BOUND: calc_line_pos() never returns a segment's half-open end offset."
+    " Round-8 triage: (21) POSBOUND: Overlay.get_cursor_coords() returns coordinates only under a test bounding both by the overlay's size and never clamps them (fix f0aa415)."
 )
 NOT_DECIDED = (
     "Agreement with the rendered canvas cursor (needs canvas semantics), loops of Pile/Columns/ListBox that accumulate offsets (equivalence of different loop shapes is not syntactic), "
@@ -623,6 +624,40 @@ def rule_two_sided(ctx: Ctx, clause="C09.17") -> RuleResult:
     return rr
 
 
+def rule_overlay_cursor_clipped(ctx: Ctx) -> RuleResult:
+    """'the reported cursor equals the one in the rendered canvas': a top widget taller (or wider) than the space the
+    Overlay has is clipped by the rendering, and a cursor in the clipped part is dropped with it (C01.20).
+    Overlay.get_cursor_coords() therefore returns translated coordinates only where a test has shown both of them
+    inside the overlay's own size - and never moves a coordinate into range (a clamped row puts the cursor on a
+    cell the cursor is not in).  Before fix f0aa415 it clamped y to maxrow - 1: canvas cursor None, reported (6, 3)."""
+    from ..rules.exc import ExcEngine
+
+    p = ctx.p
+    rr = RuleResult("POSBOUND", "C09.21", "Overlay.get_cursor_coords() returns coordinates only under a test that bounds both by the overlay's size, and never clamps them", floor=1)
+    fi = p.func("urwid.widget.overlay.Overlay.get_cursor_coords")
+    cfg = cfg_of(fi)
+    size_names = None
+    for n in fi.own_nodes():
+        if isinstance(n, ast.Assign) and isinstance(n.targets[0], ast.Tuple) and len(n.targets[0].elts) == 2 and isinstance(n.value, ast.Name) and all(isinstance(e, ast.Name) for e in n.targets[0].elts):
+            size_names = [e.id for e in n.targets[0].elts]
+    if size_names is None:
+        raise AnalysisError("Overlay.get_cursor_coords: `(maxcol, maxrow) = <size>` not found")
+    rets = [r for r in cfg.nodes if r.kind == "return" and r.ast.value is not None and not (isinstance(r.ast.value, ast.Constant) and r.ast.value.value is None)]
+    if not rets:
+        raise AnalysisError("Overlay.get_cursor_coords: no coordinate return found")
+    for r in rets:
+        ok = False
+        for t in cfg.nodes:
+            if t.kind == "test" and all(any(isinstance(x, ast.Name) and x.id == s_ for x in ast.walk(t.ast)) for s_ in size_names):
+                if r not in ExcEngine._reach_without_edge(cfg, t, "T") or r not in ExcEngine._reach_without_edge(cfg, t, "F"):
+                    ok = True
+        clamps = [n for n in fi.own_nodes() if isinstance(n, ast.Assign) and len(n.targets) == 1 and isinstance(n.targets[0], ast.Name) and linear(n.value) is not None and any(k in size_names for k in linear(n.value))]
+        rr.inst(norm(r.ast, 40), True, {"return": norm(r.ast, 50), "bounded_by_both_dimensions": ok, "clamps": [norm(c, 30) for c in clamps]})
+        if not ok or clamps:
+            rr.add(finding("POSBOUND", fi, r.ast, f"`{norm(r.ast, 50)}` reports the translated cursor without a test that bounds both coordinates by ({', '.join(size_names)})" + (f" (and `{norm(clamps[0], 30)}` moves a coordinate into range)" if clamps else "") + ": when the top widget is clipped the rendering shows no cursor (or none at that cell) while a position is reported - the container above places the terminal cursor on a cell of another widget", construct="overlay cursor reported without clipping test"))
+    return rr
+
+
 def rule_line_pos_inside_segment(ctx: Ctx) -> RuleResult:
     """calc_line_pos() answers with a text offset *on the requested line*: a segment (columns, offs, end) covers the
     half-open offsets offs..end, and `end` is where the next line starts (a line that ends at a wrap point has no
@@ -665,6 +700,7 @@ def run(ctx: Ctx):
         rule_scrollbar_side(ctx),
         rule_hit_test_every_branch(ctx),
         rule_line_pos_inside_segment(ctx),
+        rule_overlay_cursor_clipped(ctx),
     ]
 
 
@@ -676,6 +712,7 @@ _PIL = "urwid/widget/pile.py"
 _COL = "urwid/widget/columns.py"
 _BOX = "urwid/widget/box_adapter.py"
 MUTANTS = [
+    Mut("overlay-cursor-clamped-into-view", "urwid/widget/overlay.py", "Overlay.get_cursor_coords", "        x, y = coords[0] + left, coords[1] + top\n        if not (0 <= x < maxcol and 0 <= y < maxrow):\n            # the part of the top widget that holds the cursor is clipped away: the rendering shows no cursor\n            return None\n        return x, y\n", "        x, y = coords\n        if y >= maxrow:\n            y = maxrow - 1\n        return x + left, y + top\n", "POSBOUND|widget.overlay.Overlay.get_cursor_coords|overlay cursor reported without clipping test"),
     Mut("icon-cursor-right-edge-only", "urwid/widget/wimp.py", "SelectableIcon.get_cursor_coords", "        if not 0 <= x < maxcol:", "        if maxcol <= x:", "POSBOUND|widget.wimp.SelectableIcon.get_cursor_coords|column x checked on one side only"),
     Mut("twin-icon-cursor-two-tests", "urwid/widget/wimp.py", "SelectableIcon.get_cursor_coords", "        if not 0 <= x < maxcol:", "        if x < 0 or maxcol <= x:", twin=True),
     Mut("listbox-mouse-fill-above-not-reversed", "urwid/widget/listbox.py", "ListBox.mouse_event", "        fill_above.reverse()  # fill_above is in bottom-up order\n", "", "SIB|widget.listbox.ListBox.mouse_event|fill_above used in screen order without reverse()"),
@@ -702,7 +739,7 @@ MUTANTS = [
     Mut("padding-keypress-fixed-size", _PAD, "Padding.keypress", "return self._original_widget.keypress((self._width_amount,), key)", "return self._original_widget.keypress((), key)", "GEOM|widget.padding.Padding.keypress"),
     Mut("padding-cursor-size-drops-right", _PAD, "Padding.get_cursor_coords", "maxvals = (size[0] - left - right,) + size[1:]", "maxvals = (size[0] - left,) + size[1:]", "GEOM|widget.padding.Padding.get_cursor_coords"),
     Mut("overlay-cursor-box-size", _OVL, "Overlay.get_cursor_coords", "self.top_w.get_cursor_coords(self.top_w_size(real_size, left, right, top, bottom))", "self.top_w.get_cursor_coords((maxcol - left - right, maxrow - top - bottom))", "GEOM|widget.overlay.Overlay.get_cursor_coords"),
-    Mut("overlay-cursor-offset-swapped", _OVL, "Overlay.get_cursor_coords", "return x + left, y + top", "return x + top, y + left", ("PAIR|widget.overlay.Overlay", "DIM|widget.overlay.Overlay")),
+    Mut("overlay-cursor-offset-swapped", _OVL, "Overlay.get_cursor_coords", "x, y = coords[0] + left, coords[1] + top", "x, y = coords[0] + top, coords[1] + left", ("PAIR|widget.overlay.Overlay", "DIM|widget.overlay.Overlay")),
     Mut("frame-mouse-body-size", _FRM, "Frame.mouse_event", "return self.body.mouse_event((maxcol, maxrow - htrim - ftrim), event", "return self.body.mouse_event((maxcol, maxrow - htrim), event", "GEOM|widget.frame.Frame.mouse_event"),
     Mut("frame-cursor-footer-offset", _FRM, "Frame.get_cursor_coords", "row_adjust = maxrow - frows", "row_adjust = maxrow - hrows", "PAIR|widget.frame.Frame.get_cursor_coords"),
     Mut("pile-keypress-wrong-index", _PIL, "Pile.keypress", "key = self.focus.keypress(size_args[i], key)", "key = self.focus.keypress(size_args[0], key)", "GEOM|widget.pile.Pile.keypress"),
